@@ -29,6 +29,13 @@ REQUIRED_BRIDGES = {
     "C04": [_P + n for n in ["compute_transformed_extents_eq", "analyze_extent_eq", "repeat_eq", "pad_repeat_get_scanline_bounds_eq", "pixman_malloc_ab_eq", "pixman_malloc_abc_eq",
                              "pixman_malloc_ab_plus_c_eq", "_pixman_multiply_overflows_int_eq",
                              "_pixman_multiply_overflows_size_eq", "_pixman_addition_overflows_int_eq"]],
+    # pixman-region.c (region32 instantiation): per-step pieces (BridgesRegion.lean)
+    "C06": [_P + n for n in ["region32_set_extents_step_eq", "region32_set_extents_step_end",
+                             "region32_coalesce_compare_step_differ", "region32_coalesce_compare_step_same",
+                             "region32_coalesce_merge_step_eq"]],
+    "C07": [_P + n for n in ["region32_translate_sums_eq", "region32_translate_inrange_eq", "region32_translate_outside_eq",
+                             "region32_translate_clamp_extents_eq", "region32_translate_move_step_eq",
+                             "region32_translate_clamp_step_eq"]],
     "C08": [_P + "pixman_fixed_to_bilinear_weight_eq", _P + "repeat_eq", _P + "bilinear_interpolation_eq"],
     # pixman-image.c: compute_image_info = C14's literal model = C09's continuation form (flag constants matched
     # against Gen/ImageFlags inside the proof)
@@ -44,7 +51,11 @@ REQUIRED_BRIDGES = {
     "C14": [_P + "compute_image_info_eq"],
     "C15": [_P + n for n in ["pixman_malloc_ab_eq", "pixman_malloc_abc_eq", "pixman_malloc_ab_plus_c_eq"]],
     "C17": [_P + n for n in ["glyph_hash_eq", "glyph_thaw_outer_eq", "glyph_thaw_dump_eq", "glyph_thaw_evict_eq",
-                             "glyph_insert_frozen_eq", "glyph_insert_full_eq"]],
+                             "glyph_insert_frozen_eq", "glyph_insert_full_eq",
+                             # one iteration of each loop of lookup_glyph / insert_glyph / remove_glyph (BridgesGlyph.lean)
+                             "lookup_glyph_step_eq", "insert_glyph_step_eq", "insert_glyph_store_eq",
+                             "remove_glyph_find_step_eq", "remove_glyph_mark_eq", "remove_glyph_next_empty_eq",
+                             "remove_glyph_clear_step_eq"]],
     "C19": [_P + n for n in ["color_to_uint32_eq", "color_to_pixel_eq", "convert_8888_to_0565_eq_fill"]],
 }
 ALL_BRIDGES = sorted({t for v in REQUIRED_BRIDGES.values() for t in v})
